@@ -12,10 +12,11 @@ Inductive input :=
        (its configured route; any path for a nil endpoint); run a code flow and read the ID token's iss *)
 | IGrants (r : router) (c : config) (gs : list string)
     (* a complete token request per grant type string, client registered for everything *)
-| IPkce (r : router) (c : config) (m : string) (v : vrel)
-    (* code flow of a public client, code_challenge_method m, verifier related to the challenge by v *)
-| IReqObj (r : router) (c : config) (q : request)
-    (* authorization request carrying a request object signed with the client's registered key *)
+| IPkce (r : router) (c : config) (k : client_kind) (ch : option string) (v : vrel)
+    (* code flow of a client of kind k (correct credentials); ch = code_challenge_method sent with a
+       challenge (None: no challenge); v = how the token request's verifier relates to it / absent *)
+| IReqObj (r : router) (c : config) (k : client_kind) (q : request)
+    (* authorization request of a client of kind k carrying a request object signed with its registered key *)
 | IIssuer (api : iss_api) (raw : string) (hostless : bool) (o : url_oracle) (insecure : bool)
     (* issuer string (or path for the dynamic strategies) given to the constructor;
        hostless: the driver built it without a host; o: what url.Parse says *)
@@ -45,8 +46,8 @@ Definition model (i : input) : observed :=
       ODoc true (doc_issuer r c q) (map (doc_endpoint r c q) all_epnames) (map (served r c) probes)
            (if has_auth_and_token c then Some (token_issuer r c q) else None)
   | IGrants r c gs => OGrants (doc_grants c) (map (fun s => dispatch r c (classify s)) gs)
-  | IPkce r c m v => OPkce (doc_pkce c) (pkce_issued r c m v)
-  | IReqObj r c q => OReqObj (doc_reqparam c) (reqobj_outcome r c)
+  | IPkce r c k ch v => OPkce (doc_pkce c) (pkce_issued r c k ch v)
+  | IReqObj r c k q => OReqObj (doc_reqparam c) (reqobj_outcome r c k)
   | IIssuer api raw _ o insecure =>
       OIssuer (match api with
                | ApiValidate | ApiNewProvider => validate_issuer raw o insecure
@@ -119,9 +120,14 @@ Definition spec (i : input) (o : observed) : bool :=
       && spec_eps iss (map (ep_of (c_eps c)) all_epnames) adv routed probes
       && match tok with Some t => String.eqb t iss | None => true end
   | IGrants r c gs, OGrants advertised answers => spec_grants advertised gs answers
-  | IPkce r c m v, OPkce advertised issued =>
-      if string_in m advertised then Bool.eqb issued (rel_matches m v) else true
-  | IReqObj r c q, OReqObj advertised res =>
+  | IPkce r c k ch v, OPkce advertised issued =>
+      (* an advertised method bound to the code: tokens exactly when the verifier satisfies it
+         (and the client's own authentication method is enabled); whoever the client is *)
+      match ch with
+      | Some m => if string_in m advertised then Bool.eqb issued (rel_matches m v && client_ok c k) else true
+      | None => true
+      end
+  | IReqObj r c k q, OReqObj advertised res =>
       match res with
       | RoPanic => false
       | RoHonoured => true
@@ -167,8 +173,11 @@ Definition path (i : input) (o : observed) : nat :=
       10 + strategy_class c + 3 * (if forallb (fun a => match a with Some _ => true | None => false end) adv then 0 else 1)
       + 6 * (match tok with Some _ => 0 | None => 1 end)
   | IGrants r c gs, OGrants _ answers => 30 + count_handled answers
-  | IPkce r c m v, OPkce adv issued => 40 + (if issued then 1 else 0) + 2 * (match method_of m with MS256 => 1 | MOther => 0 end)
-  | IReqObj r c q, OReqObj _ res => 50 + (match res with RoHonoured => 0 | RoNotSupported => 1 | _ => 2 end)
+  | IPkce r c k ch v, OPkce adv issued =>
+      40 + (if issued then 1 else 0)
+      + 2 * (match ch with Some m => match method_of m with MS256 => 1 | MOther => 2 end | None => 0 end)
+      + 6 * (match v with VAbsent => 1 | _ => 0 end)
+  | IReqObj r c k q, OReqObj _ res => 50 + (match res with RoHonoured => 0 | RoNotSupported => 1 | _ => 2 end)
   | IIssuer api _ _ _ _, OIssuer res _ =>
       match res with
       | IssNoIssuer => 0
